@@ -3,6 +3,7 @@ package c06
 import (
 	"fmt"
 	"os"
+	"runtime"
 	"strings"
 	"testing"
 )
@@ -31,7 +32,13 @@ func TestSpeed(t *testing.T) {
 	if os.Getenv("C06_SPEED") == "" {
 		t.Skip()
 	}
-	for i := 0; i < 20000; i++ {
-		exec("caught := null\ntry {\n    1 + \"a\"\n} except e {\n    caught := e.type\n}\n", 0, false)
+	for i := 0; i < 60000; i++ {
+		exec("caught := null\ntry {\n    1 + \"a\"\n} except e {\n    caught := e.type\n}\n", stepBudget, false)
+		exec("a := (1 +", stepBudget, false)
+		if i%10000 == 0 {
+			var ms runtime.MemStats
+			runtime.ReadMemStats(&ms)
+			fmt.Println(i, "goroutines", runtime.NumGoroutine(), "heap MB", ms.HeapAlloc>>20)
+		}
 	}
 }
